@@ -198,6 +198,135 @@ def window_op(chk, rule, facts, C, bd, label, lens, reduce_, op, WN=2, irredunda
     return v
 
 
+def window_to_lut(chk, rule, facts, C, bd, label, n, varset, L, reduce_, lut_words):
+    """Conversion of a container of L real terms (symbolic only on the variables in varset, e.g. {0, 6, 7} of n = 8:
+    low and block-selecting variables) to a Lut: every table bit m of the result, as a function of the term atoms,
+    equals the OR / XOR of the term denotations at m, and bits >= 2^n are 0.  Window mode without path splitting
+    (joins are merged: bit functions are integer bit sets over the atom universe, hence exact)."""
+    key = "%s n=%d, %d real term(s) over variables %s" % (label, n, L, sorted(varset))
+    try:
+        E = ElemKind(facts, C.elem)
+        it = Interp(facts, max_paths=4096, max_steps=200000000)
+        it.prune = True
+        st = State()
+        names = ["t%d" % j for j in range(L)]
+        vs = sorted(varset)
+
+        def mk(nm):
+            fs = []
+            for k, t_ in enumerate(E.fts):
+                if t_["k"] == "bool":
+                    fs.append(W(1, bits=[B.atom("%s.f%d" % (nm, k))]))
+                else:
+                    fs.append(W(t_["w"], bits=[B.atom("%s.f%d[%d]" % (nm, k, i_)) if i_ in varset else ZERO for i_ in range(t_["w"])]))
+            return Agg("adt", E.adt, 0, fs)
+        atoms, canon = [], []
+        for nm in names:
+            for k, t_ in enumerate(E.fts):
+                if t_["k"] == "bool":
+                    atoms.append("%s.f%d" % (nm, k))
+                else:
+                    atoms += ["%s.f%d[%d]" % (nm, k, i_) for i_ in vs]
+            if E.kind == "cube":
+                canon += [W(1, bits=[B.bnot(B.band(B.atom("%s.f0[%d]" % (nm, i_)), B.atom("%s.f1[%d]" % (nm, i_))))]) for i_ in vs]
+        cell = new_cell()
+        st.mem[cell] = Arr([mk(x) for x in names])
+        f = [None, None]
+        f[C.nv] = wconst(64, n)
+        f[C.cv] = Ptr(cell, (), (0, L), "vec")
+        space = Space(atoms, canon)
+        it.space = space
+        with space:
+            outs = it.call_body(bd, [arg_for(bd["sig"]["inputs"][0], Agg("adt", C.adt, 0, f), st)], st, {}, pc=tuple(canon))
+            v, d = PROVED, ""
+            covered = 0
+            for o in outs:
+                pm = space.pc_mask(o.pc)
+                if pm is None:
+                    raise Undecided("path condition with top")
+                if not pm:
+                    continue
+                if o.kind != "return":
+                    v, d = REFUTED, "panics (%s) for some terms over the window" % o.info.get("msg")
+                    break
+                covered |= pm
+                words = lut_words(it, o.state, o.value)
+                bits = []
+                for w_ in words:
+                    bits.extend(w_.all_bits())
+                # specification masks
+                full = space.full
+
+                def am(name):
+                    return space.var[B.ATOMS.get(name)]
+                for m in range(len(bits)):
+                    got = space.bit_mask(bits[m]) if bits[m] is not None else None
+                    if got is None:
+                        raise Undecided("table bit %d not exact" % m)
+                    if m >= (1 << n):
+                        want = 0
+                    else:
+                        acc = 0
+                        for nm in names:
+                            if E.kind == "cube":
+                                t_m = full
+                                for i_ in vs:
+                                    pos_, neg_ = am("%s.f0[%d]" % (nm, i_)), am("%s.f1[%d]" % (nm, i_))
+                                    t_m &= (full ^ pos_) if not (m >> i_) & 1 else (full ^ neg_)
+                            else:
+                                t_m = am("%s.f%d" % (nm, E.xi))
+                                for i_ in vs:
+                                    if (m >> i_) & 1:
+                                        t_m ^= am("%s.f%d[%d]" % (nm, E.vi, i_))
+                            acc = (acc | t_m) if reduce_ == "or" else (acc ^ t_m)
+                        want = acc
+                    diff = (got ^ want) & pm
+                    if diff:
+                        r_ = (diff & -diff).bit_length() - 1
+                        named = {a_: (r_ >> j) & 1 for j, a_ in enumerate(space.names)}
+                        terms = []
+                        for nm in names:
+                            val = [None, None]
+                            for k, t_ in enumerate(E.fts):
+                                val[k] = named["%s.f%d" % (nm, k)] if t_["k"] == "bool" else sum(named["%s.f%d[%d]" % (nm, k, i_)] << i_ for i_ in vs)
+                            terms.append(E.show(tuple(val)))
+                        v, d = REFUTED, "for the terms [%s] the table has %d at assignment %d, the %s of the terms is %d" % (" ".join(terms), (got >> r_) & 1, m, reduce_.upper(), (want >> r_) & 1)
+                        break
+                if v != PROVED:
+                    break
+            if v == PROVED and covered != space.base:
+                v, d = UNDECIDED, "paths do not cover every choice of terms"
+    except Undecided as ex:
+        v, d = UNDECIDED, ex.cause
+    chk.add(rule, key, v, d, where=where_of(bd))
+    return v
+
+
+def to_lut_rules(chk, rule, facts, C, reduce_, tier):
+    """conversions <Lut as From<&Container>> on real terms: n = 3, 7, 8 with low and block-selecting variables"""
+    from .harness import Env
+    env = Env(facts)
+    KD = env.kinds["dyn"]
+    found = 0
+    for bd, sty, tr in facts.trait_impl_methods("std::convert::From"):
+        if sty.get("path") != "lut::Lut" or len(tr["args"]) < 2:
+            continue
+        src = tr["args"][1]
+        base = src["t"] if src["k"] == "ref" else src
+        if base.get("path") != C.adt:
+            continue
+        found += 1
+        if src["k"] != "ref" and tier != "thorough":
+            continue
+        label = "<Lut as %s>::from" % tr["s"]
+        plans = [(3, {0, 1, 2}, 1), (3, {0, 2}, 2), (7, {0, 5, 6}, 1), (7, {1, 6}, 2), (8, {0, 6, 7}, 1), (8, {6, 7}, 2), (8, {5, 7}, 2)]
+        if tier == "thorough":
+            plans += [(9, {0, 7, 8}, 1), (9, {6, 7, 8}, 2), (10, {6, 8, 9}, 2)]
+        for n, varset, L in plans:
+            window_to_lut(chk, rule, facts, C, bd, label, n, varset, L, reduce_, lambda it, st, v: KD.words(it, st, v))
+    return found
+
+
 def op_forms(facts, trait, adt):
     return [(bd, "<%s as %s>::%s" % (sty["s"], tr["s"], bd["name"])) for bd, sty, tr in facts.trait_impl_methods(trait)
             if (sty["t"] if sty["k"] == "ref" else sty).get("path") == adt]
